@@ -519,6 +519,7 @@ class ClauseElement(
         d = self.__dict__.copy()
         d.pop("_is_clone_of", None)
         d.pop("_generate_cache_key", None)
+        d.pop("comparator", None)
         return d
 
     def _execute_on_connection(
@@ -2283,6 +2284,7 @@ class BindParameter(roles.InElementRole, KeyedColumnElement[_T]):
         """execute a deferred value for serialization purposes."""
 
         d = self.__dict__.copy()
+        d.pop("comparator", None)
         v = self.value
         if self.callable:
             v = self.callable()
